@@ -211,6 +211,27 @@ def run(ctx):
         sc = np.abs(Se).max()
         recs.append(dict(id=c["id"], cls=c["cls"], prm={k: rat(v) for k, v in c["prm"].items()}, P=[[rat(v) for v in row] for row in c["P"]], dim=c["dim"], planeStress=c["planeStress"],
                          Sobs=[[snap(v, sc) for v in row] for row in Se]))
+    # units (ElasticLaws.tla: UnitLaw): every parametric case again with its moduli multiplied by 2^40 (an exact binary factor: moduli of order 1e13, compliances of order 1e-13; the
+    # order of GPa -> Pa); the reported compliance is multiplied back and judged against the same exact expectation
+    UNIT = 2.0**40
+    MODULI = {"E", "El", "Et", "Gl", "E1", "E2", "E3", "G23", "G13", "G12"}
+    for c in cs:
+        if c["id"] not in mats:
+            continue
+        prm2 = {k_: (v_ * UNIT if k_ in MODULI else v_) for k_, v_ in c["prm"].items()}
+        ident = c["id"] + "/unit2^40"
+        try:
+            m = build(c["cls"], prm2, c["P"], c["scale"], c["dim"], c["planeStress"])
+            S = np.asarray(m.S, dtype=float) * UNIT
+            C = np.asarray(m.C, dtype=float) / UNIT
+        except Exception as ex:
+            ctx.violation(f"build-raises/{c['cls']}/{c['frame']}", f"{ident}: {type(ex).__name__}: {ex}", {"id": ident})
+            continue
+        mats[ident] = (m, C, S)
+        Se = km_to_eng(S)
+        sc = np.abs(Se).max()
+        recs.append(dict(id=ident, cls=c["cls"], prm={k: rat(v) for k, v in c["prm"].items()}, P=[[rat(v) for v in row] for row in c["P"]], dim=c["dim"], planeStress=c["planeStress"],
+                         Sobs=[[snap(v, sc) for v in row] for row in Se]))
     # anisotropic: the law is given as a stiffness; take the orthotropic one in material axes, in both notations
     ortho = build("Orthotropic", PARAMS["Orthotropic"][0], I3, (1.0, 1.0), 3, False)
     C_km_mat = np.asarray(ortho.C, dtype=float)
@@ -264,7 +285,7 @@ def run(ctx):
         Se_ = km_to_eng(S_)
         sub_ = [0, 1, 5]
         expS_ = exp6_ if Se_.shape[0] == 6 else exp6_[np.ix_(sub_, sub_)]
-        numdiff = np.abs(Se_ - expS_).max() / np.abs(expS_).max() if (Se_.shape[0] == 6 or (ident in byid and byid[ident]["planeStress"])) else 0.0
+        numdiff = np.abs(Se_ - expS_).max() / np.abs(expS_).max() if (Se_.shape[0] == 6 or (ident.replace("/unit2^40", "") in byid and byid[ident.replace("/unit2^40", "")]["planeStress"])) else 0.0
         if v["mismatch"] and numdiff < 1e-10:
             from harness.core import MachineryError
 
